@@ -4,7 +4,8 @@
                                     Judges (Want/ResultOK, RequestBound, planet URL + state file layout), KF_ signatures
   spec/MC_ReplicationSearch.tla     model-checking instance: Model |= Judges for every directory of the families
   spec/ReplicationSearchGen.tla     directories rendered in the planet layout (paths, bodies, query times)
-  harness/cmd/c19                   serves a rendered directory from an in-process HTTP server, runs XxxStateAt
+  harness/cmd/c19                   one child process per call history: serves the rendered directory over HTTP,
+                                    runs the XxxStateAt / CurrentXxxState calls in order
   spec/ReplicationSearchJudge.tla   the property on every recorded run (only oracle)
   spec/ReplicationSearchTrace.tla   recorded request traces replayed against the Model's actions (binding evidence)
 """
@@ -19,8 +20,10 @@ CASE_FIELDS = ("kind", "skew", "style", "prefix", "unit", "pauses", "pauselen", 
 
 # --------------------------------------------------------------------------
 class Cases:
-    """Flat view (directory, query) of the generated directory records; item i is a self-contained
-    single-query directory record (what the harness executes and what goes into a replay file)."""
+    """Flat view (history, call) of the generated records.  One generated record is one client history: a
+    directory plus the sequence of calls made against it in one process.  Item i is the WHOLE history with
+    "focus" = the index of call i in it: re-running a case re-runs the history (in a fresh child process), so
+    what call i saw before it is the same again, and the replay file reproduces deterministically."""
 
     def __init__(self, dirs):
         self.dirs = dirs
@@ -32,29 +35,36 @@ class Cases:
     def __getitem__(self, i):
         di, qi = self.idx[i]
         d = dict(self.dirs[di])
-        d["queries"] = [self.dirs[di]["queries"][qi]]
+        d["focus"] = qi
         return d
 
 
 def execute_dirs(ctx, dirs):
-    """Run the harness on directory records; returns the flat list of judge records (one per query)."""
+    """Run the harness on history records (each in its own child process); returns the flat list of judge
+    records, one per call - for a record with "focus" only that call's record."""
     b = vlib.go_build("c19")
-    outs = vlib.run_go(b, stdin_lines=dirs, timeout=3000)
+    outs = vlib.run_go(b, stdin_lines=[{k: v for k, v in d.items() if k != "focus"} for d in dirs], timeout=3000)
     if len(outs) != len(dirs):
-        raise vlib.Infra("C19: %d directories but %d harness records" % (len(dirs), len(outs)))
+        raise vlib.Infra("C19: %d histories but %d harness records" % (len(dirs), len(outs)))
     recs = []
-    for d, o in zip(dirs, outs):
+    for sid, (d, o) in enumerate(zip(dirs, outs)):
         if len(o["runs"]) != len(d["queries"]):
-            raise vlib.Infra("C19: harness returned %d runs for %d queries" % (len(o["runs"]), len(d["queries"])))
+            raise vlib.Infra("C19: harness returned %d runs for %d calls" % (len(o["runs"]), len(d["queries"])))
         base = {k: d[k] for k in CASE_FIELDS}
-        for r in o["runs"]:
+        base["sid"] = sid
+        for k, (q, r) in enumerate(zip(d["queries"], o["runs"])):
+            if "focus" in d and k != d["focus"]:
+                continue
             c = dict(base)
-            c["q"] = r["q"]
+            c["q"], c["op"], c["k"] = r["q"], q["op"], k + 1
             recs.append({"case": c, "got": r["got"]})
     return recs
 
 
 def judge(ctx, recs):
+    crashed = [r for r in recs if r["got"]["outcome"] == "crash"]
+    if crashed:   # no abstract outcome of C19: the child process running a history died or timed out
+        raise vlib.Infra("C19: %d calls lost with their child process: %s" % (len(crashed), crashed[0]["got"]["detail"][-800:]))
     shards = max(1, min(vlib.NCPU // 2, len(recs) // 400))
     return vlib.tlc_judge(ctx, JUDGE, JUDGE + ".cfg", recs, shards=shards)
 
@@ -229,7 +239,7 @@ def run(ctx):
 
 
 def replay(ctx, rp):
-    recs = execute_dirs(ctx, [rp["case"]])
+    recs = execute_dirs(ctx, [rp["case"]])     # the whole history in a fresh process, judged at the focus call
     bad = judge(ctx, recs)
     if not bad:
         print("replay: case passes")
